@@ -143,7 +143,10 @@ def replay_chunk(args):
         try:
             rnd = random.Random(f"{seed}-{si}")
             # every third scenario keeps one main and one header with DOS line endings (same lines, other bytes)
-            m = scen.Mat(sc, base, seed=0, plain=True, crlf=({"src/m2.c", "inc/h.h"} if si % 3 == 0 else ()))
+            m = scen.Mat(sc, base, seed=0, plain=True, crlf=({"src/m2.c", "inc/h.h"} if si % 3 == 0 else ()),
+                         # every other scenario: directives whose trailing comment ends on the next physical line (one
+                         # COUNTED line per item still, so the expected figures are the same)
+                         spill=(si % 2 == 1))
             tags = scen.features(sc) | {"c06"}
             # symlinks: one at the root, one below it, both to a member file
             main = m.paths["src/m1.c"]
